@@ -504,7 +504,7 @@ func runC03(c *ctx) {
 	}
 	// seeded triples and larger
 	r := c.rng("sets")
-	for i := 0; i < c.n(6000, 60000); i++ {
+	for i := 0; i < c.n(6000, 300000); i++ {
 		k := 3 + r.intn(4)
 		set := shuffled(r, pool)[:k]
 		names := map[string]bool{}
